@@ -184,6 +184,133 @@ pub fn specs(tier: Tier) -> Vec<GenSpec> {
     }
 }
 
+/// the same oracle through the whole application: speed table, heading table and turn-delay table written to files and
+/// configured as a user would (units as configuration strings), route rendered as per-edge JSON records; every ordered
+/// origin/destination pair. the records' states and costs and the route summary are walked with the reference accumulation
+pub fn app_layer(scratch: &crate::world::app::Scratch, net: &Net, st: &mut Stats) {
+    use crate::world::app::AppSpec;
+    let n = net.n;
+    let m = net.m();
+    if m == 0 || n < 2 {
+        return;
+    }
+    let k = net.hash_idx() as usize;
+    let units = [
+        (SpeedUnit::KilometersPerHour, DistanceUnit::Meters, TimeUnit::Seconds, TimeUnit::Seconds),
+        (SpeedUnit::MilesPerHour, DistanceUnit::Miles, TimeUnit::Hours, TimeUnit::Minutes),
+        (SpeedUnit::KilometersPerHour, DistanceUnit::Kilometers, TimeUnit::Minutes, TimeUnit::Seconds),
+        (SpeedUnit::MetersPerSecond, DistanceUnit::Feet, TimeUnit::Milliseconds, TimeUnit::Hours),
+    ];
+    let (su, du, tu, delu) = units[k % units.len()];
+    let speeds: Vec<f64> = (0..m).map(|e| [10.0, 30.0, 60.0][(e + k) % 3]).collect();
+    let hs = [0i16, 90, 180, 270, 350, 45, 200];
+    let headings: Vec<(i16, i16)> = (0..m).map(|e| if (k / 4) % 2 == 0 { (hs[(e * 3 + k) % 7], hs[(e * 5 + k / 7 + 1) % 7]) } else { ([0i16, 90][(e + k) % 2], hs[(e * 5 + 1) % 7]) }).collect();
+    let turn = TurnCfg { headings, delays: [0.25, 0.5, 1.0, 1.5, 2.0, 2.5, 3.0, 9.5], unit: delu };
+    let (wd, wt) = [(0.0, 1.0), (1.0, 1.0), (0.5, 2.0)][(k / 3) % 3];
+    let w = World {
+        net: net.clone(),
+        trav: Trav::Speed { speed_unit: su, dist_unit: du, time_unit: tu, speeds: speeds.clone() },
+        feat_dist_unit: du,
+        feat_time_unit: tu,
+        init_dist: 0.0,
+        init_time: 0.0,
+        turn: Some(turn.clone()),
+        w_dist: wd,
+        w_time: wt,
+        r_dist: Rate::Raw,
+        r_time: Rate::Factor(2.0),
+        surcharge: vec![],
+        turn_surcharge: vec![],
+        mul: false,
+        term: crate::world::sw::Term::Unlimited,
+    };
+    let mut spec = AppSpec::simple(net.clone());
+    spec.algorithm = json!({"type": "dijkstra"});
+    spec.speed = Some((speeds, su, Some(du), Some(tu)));
+    spec.distance_unit = du;
+    spec.turn = Some(turn);
+    spec.cost = json!({"weights": {"distance": wd, "time": wt}, "vehicle_rates": {"distance": {"type": "raw"}, "time": {"type": "factor", "factor": 2.0}}, "cost_aggregation": "sum", "network_rates": {}});
+    spec.output_plugins = vec![json!({"type": "traversal", "route": "json", "geometry_input_file": "$DIR/geometries.txt"})];
+    let dir = scratch.path.join(format!("a{}", net.hash_idx()));
+    let app = match spec.build(&dir) {
+        Ok(a) => a,
+        Err(e) => {
+            st.violation("harness", "app_build", 0, || e.clone(), || json!({"net": net}));
+            return;
+        }
+    };
+    let mut queries: Vec<(Value, usize, usize)> = vec![];
+    for o in 0..n {
+        for d in 0..n {
+            if o != d {
+                queries.push((json!({"origin_vertex": o, "destination_vertex": d}), o, d));
+            }
+        }
+    }
+    let batch: Vec<Value> = queries.iter().map(|q| q.0.clone()).collect();
+    let res = match crate::engine::guarded(|| app.run(batch.clone(), None)) {
+        Ok(Ok(r)) => r,
+        other => {
+            st.violation("app", "run_returns_responses", net.size(), || format!("{:?}", other.map(|r| r.map(|v| v.len()).map_err(|e| e.to_string()))), || json!({"net": net, "app_layer": true}));
+            let _ = std::fs::remove_dir_all(&dir);
+            return;
+        }
+    };
+    for (q, o, d) in queries.iter() {
+        let r = match res.iter().find(|r| r["request"] == *q) {
+            Some(r) => r,
+            None => continue,
+        };
+        if r.get("error").map_or(false, |e| !e.is_null()) {
+            continue;
+        }
+        let path = match r["route"]["path"].as_array() {
+            Some(p) if !p.is_empty() => p,
+            _ => continue,
+        };
+        st.evaluations += 1;
+        st.transitions += 1;
+        st.traces += 1;
+        // slots of the state vector by feature name
+        let idx_of = |name: &str| r["route"]["state_model"][name]["index"].as_u64().or_else(|| r["state_model"][name]["index"].as_u64()).map(|i| i as usize);
+        let (di, ti) = match (idx_of("distance"), idx_of("time")) {
+            (Some(a), Some(b)) => (a, b),
+            _ => (0, 1),
+        };
+        let route: Vec<RouteEdge> = path
+            .iter()
+            .map(|x| {
+                let sv: Vec<f64> = x["result_state"].as_array().map(|a| a.iter().map(|v| v.as_f64().unwrap_or(f64::NAN)).collect()).unwrap_or_default();
+                RouteEdge { edge: x["edge_id"].as_u64().unwrap_or(u64::MAX) as usize, access: x["access_cost"].as_f64().unwrap_or(f64::NAN), traversal: x["traversal_cost"].as_f64().unwrap_or(f64::NAN), state: vec![sv.get(di).copied().unwrap_or(f64::NAN), sv.get(ti).copied().unwrap_or(f64::NAN)] }
+            })
+            .collect();
+        if route.len() >= 2 {
+            st.nontrivial += 1;
+        }
+        let case = || json!({"net": net, "app_layer": true, "query": q, "world": w});
+        let orient = Orient::Vertex { o: *o, d: Some(*d) };
+        let mut bad = route_structure(net, &route_ids(&route), &orient, false);
+        if bad.is_empty() {
+            bad.extend(route_accumulation(&w, &route, &orient, false));
+        }
+        // the summary is the state after the last edge
+        if let Some(last) = route.last() {
+            let sd = r["route"]["traversal_summary"]["distance"].as_f64();
+            let stime = r["route"]["traversal_summary"]["time"].as_f64();
+            if sd != Some(last.state[0]) || stime != Some(last.state[1]) {
+                bad.push(("summary_is_last_state", format!("summary distance {:?} time {:?} but the last record holds {:?}", sd, stime, last.state)));
+            }
+        }
+        if bad.is_empty() {
+            st.pass("app_route_accumulates_true_sums");
+        }
+        for (c, dtl) in bad {
+            st.violation("app.vertex", c, net.size() + route.len() as u64, || format!("route {:?}: {}", route_ids(&route), dtl), case);
+        }
+    }
+    let _ = std::fs::remove_dir_all(&dir);
+}
+
 /// weighted A* (weight factor above 1) re-opens vertices that were already expanded: a vertex whose label improves after
 /// its children were labelled leaves them with states computed from the old label. Networks with edge lengths comparable to
 /// the heuristic (metric lengths on the lattice and on the uneven line) x moderate weight factors, distance-only world
@@ -201,9 +328,14 @@ pub fn reopening_algos() -> Vec<Algo> {
 pub fn run(tier: Tier) -> i32 {
     let info = RunInfo::new("C03", tier);
     let specs = specs(tier);
+    let scratch = crate::world::app::Scratch::new("c03");
     let mut st = par_enumerate(&specs, |_spec, net, st| {
         let idx = net.hash_idx();
         for_net(net, tier, idx, st);
+        // every 30th network also goes through the whole application
+        if idx % 30 == 0 {
+            app_layer(&scratch, net, st);
+        }
         if net.n == 4 && net.m() == 4 {
             st.sample(1, || json!({"example_world": worlds(net, tier, idx).first()}));
         }
